@@ -18,9 +18,10 @@ from __future__ import annotations
 import copy
 import json
 import os
+import re
 from typing import Any
 
-from sim import histsim, kit, project, runner
+from sim import corpus, histsim, kit, project, runner
 
 PROP = "C07"
 SEQ_FLAGS = ["--native-parser"]
@@ -59,7 +60,14 @@ def abnormal(r: dict[str, Any], what: str) -> dict[str, Any] | None:
     return None
 
 
+def _norm(r: dict[str, Any]) -> dict[str, Any]:
+    # TypeVar ids are not stable in parallel checking; the suite normalises them the same way
+    # (mypy.test.helpers.remove_typevar_ids)
+    return dict(r, stdout=re.sub(r"`-?\d+", "", r.get("stdout") or ""))
+
+
 def compare(par: dict[str, Any], seq: dict[str, Any], what: str) -> dict[str, Any] | None:
+    par, seq = _norm(par), _norm(seq)
     if runner.same_observable(par, seq):
         return None
     if runner.differs_only_in_only_once(par, seq):
@@ -177,9 +185,51 @@ def gen(k: int, tier: str) -> dict[str, Any]:
     return scn
 
 
+_par_cases: list[dict[str, Any]] | None = None
+CORPUS_FILES = ("check-incremental.test", "check-modules.test", "check-modules-fast.test", "check-serialize.test", "check-classes.test",
+                "check-generics.test", "check-protocols.test", "check-dataclasses.test", "check-newsemanal.test", "check-overloading.test",
+                "check-type-aliases.test", "check-recursive-types.test", "check-namedtuple.test", "check-typeddict.test", "check-enum.test")
+
+
+def par_cases() -> list[dict[str, Any]]:
+    global _par_cases
+    if _par_cases is None:
+        out = []
+        for fn in CORPUS_FILES:
+            try:
+                cs = corpus.load_file(fn)
+            except OSError:
+                continue
+            for c in cs:
+                nm = c["name"]
+                if nm.endswith(("_no_parallel", "_no_native_parse")):
+                    continue  # documented as unsupported in parallel mode / by the native parser; the suite skips them too
+                nfiles = sum(1 for p in c["steps"][0] if p.endswith((".py", ".pyi")) and p not in ("builtins.pyi", "typing.pyi", "_typeshed.pyi"))
+                if corpus.usable(c) and nfiles >= 2 and all(f is None for f in c["flags"][1:]) and all(a is None for a in c["argv"][1:]):
+                    if any("--no-incremental" in t or "--cache-dir" in t or "-n" == t for t in (c["flags"][0] or [])):
+                        continue
+                    out.append(c)
+        _par_cases = out
+    return _par_cases
+
+
+def gen_corpus(k: int, tier: str) -> dict[str, Any]:
+    cases = par_cases()
+    rng = kit.rng_for(PROP, "corpus", k)
+    c = cases[k % len(cases)] if tier == "thorough" else rng.choice(cases)
+    trees = corpus.trees_of(c)
+    steps = [{"edits": corpus.delta(trees[i], trees[i + 1]), "gap_s": 2.0, "run": False} for i in range(len(trees) - 1)]
+    cfg = dict(rng.choice([histsim.STORE_CONFIGS[0], histsim.STORE_CONFIGS[2], histsim.STORE_CONFIGS[1]]))
+    cfg["extra_flags"] = corpus.step_flags(c, 0)
+    scn: dict[str, Any] = {"files": trees[0], "argv": corpus.step_argv(c, 0), "config": cfg, "steps": steps, "case": c["file"] + "::" + c["name"]}
+    scn["mode"] = rng.choice(["warm_seq", "warm_par"]) if steps else "cold"
+    scn["par"] = {"workers": rng.choice([2, 2, 3, 4]), "sched_seed": rng.randrange(1 << 30), "policy": rng.choice(POLICIES)}
+    return scn
+
+
 def task(item: tuple[int, str]) -> dict[str, Any]:
     k, tier = item
-    scn = gen(k, tier)
+    scn = gen_corpus(k - 500000, tier) if k >= 500000 else gen(k, tier)
     r = evaluate(scn, f"s{k}")
     info = r["info"]
     p = info.get("par") or {}
@@ -195,10 +245,14 @@ def task(item: tuple[int, str]) -> dict[str, Any]:
         "decisions": p.get("n_decisions", 0),
     }
     if len(p.get("workers_used") or []) >= 2:
-        out["nontrivial"] = [kit.digest([scn["project"], scn["steps"], scn["par"], scn["mode"]])]
+        out["nontrivial"] = [kit.digest([scn.get("project") or scn.get("case"), scn["steps"], scn["par"], scn["mode"]])]
         out["probes"]["schedules_with_2plus_active_workers"] = 1
+    if "case" in scn:
+        out["faults"]["source_corpus"] = 1
     if k < 2:
         out["sample"] = {"config": scn["config"], "mode": scn["mode"], "par": scn["par"], "modules": sorted(scn["project"]["mods"]), "roots": scn["project"]["roots"], "decisions": p.get("n_decisions")}
+    elif k in (500000, 500001):
+        out["sample"] = {"case": scn["case"], "mode": scn["mode"], "par": scn["par"], "decisions": p.get("n_decisions")}
     if info.get("par_error"):
         raise kit.HarnessError("scheduler summary failed: " + info["par_error"])
     if r["violation"] is not None:
@@ -246,7 +300,7 @@ def minimise(v: dict[str, Any]) -> dict[str, Any]:
         s2 = {k_: v_ for k_, v_ in cur.items() if k_ != "followup"}
         if still(s2, sc):
             cur = s2
-    for mid_ in sorted(cur["project"]["mods"], reverse=True):
+    for mid_ in sorted((cur.get("project") or {"mods": {}})["mods"], reverse=True):
         if mid_ == "m0":
             continue
         s2 = copy.deepcopy(cur)
@@ -276,7 +330,12 @@ def finalise_task(v: dict[str, Any]) -> dict[str, Any]:
 
 def match_known(v: dict[str, Any], known: list[dict[str, Any]]) -> dict[str, Any] | None:
     for e in known:
-        if e.get("match", {}).get("kind") == v["violation"]["kind"]:
+        m = e.get("match", {})
+        if "case" in m:
+            if v["scenario"].get("case") == m["case"]:
+                return e
+            continue
+        if m.get("kind") == v["violation"]["kind"]:
             return e
     return None
 
@@ -304,7 +363,8 @@ def run(tier: str) -> int:
     bad = [d for d in det if not d["same"]]
     if bad:
         raise kit.HarnessError(f"determinism self-test failed: {bad[:3]}")
-    results, skipped = kit.run_pool(task, [(k, tier) for k in range(n)], budget_s=900 if tier == "quick" else 3 * 3600)
+    n_corpus = 60 if tier == "quick" else len(par_cases()) * 2
+    results, skipped = kit.run_pool(task, [(k, tier) for k in range(n)] + [(500000 + k, tier) for k in range(n_corpus)], budget_s=900 if tier == "quick" else 3 * 3600)
     results.sort(key=lambda r: r["k"])
     by_class: dict[str, list[dict[str, Any]]] = {}
     assignments = set()
@@ -316,7 +376,10 @@ def run(tier: str) -> int:
         total_dec += r.get("decisions", 0)
         if "violation" in r:
             v = r["violation"]
-            by_class.setdefault(v["violation"]["kind"] + ":" + str(v["violation"].get("where", "")), []).append(v)
+            key = v["violation"]["kind"] + ":" + str(v["violation"].get("where", ""))
+            if "case" in v["scenario"] and v["violation"]["kind"] not in SOFT:
+                key += ":" + v["scenario"]["case"]
+            by_class.setdefault(key, []).append(v)
     unknown = []
     for cls, vs in sorted(by_class.items()):
         e = match_known(vs[0], known)
